@@ -631,6 +631,10 @@ spifconf_shell_expand(spif_charptr_t s)
                   for (pbuff++; *pbuff && *pbuff != '`' && l < max; pbuff++, l++) {
                       Command[l] = *pbuff;
                   }
+                  if (!*pbuff) {
+                      /* No closing backquote; don't step over the terminator. */
+                      pbuff--;
+                  }
                   ASSERT_RVAL(l < CONFIG_BUFF, NULL);
                   Command[l] = 0;
                   Command = spifconf_shell_expand(Command);
